@@ -58,6 +58,7 @@ func propC09(t *rapid.T) {
 				// to be faulty, and keeps answering per script
 				sc.Backend.ReadAfterWrites = rapid.IntRange(1, 3).Draw(t, "read_after_writes")
 				sc.Backend.WriteChunk = rapid.SampledFrom([]int{0, 0, 7, 40}).Draw(t, "duplex_write_chunk")
+				sc.Backend.WritePerFrame = rapid.Bool().Draw(t, "duplex_per_frame")
 			}
 		} else {
 			sc.Backend.Fault = genFault(t, responseFaults)
